@@ -122,12 +122,13 @@ def match_all(leaves, lits, allow_reduced=False):
     return out
 
 
-def check_literals(ctx: Ctx, prop_rule: str, env: EnvA, sl, root, lits, what: str, direction: str):
+def check_literals(ctx: Ctx, prop_rule: str, env: EnvA, sl, root, lits, what: str, direction: str, ids=None):
     """Shared by C01.b/d and C05: `direction` = 'looser' (C01) or 'tighter' (C05) selects which
     boundary deviation is a violation for this property."""
     leaves = nf.boolwalk(root, T.BOOL_CELLS)
     m = match_all(leaves, lits)
     by_name = {l.name: l for l in lits}
+    id_presence, id_boundary = ids if ids else (("C01.b", "C01.d") if direction == "looser" else ("C05.a", "C05.a"))
     for lit in lits:
         leaf, elsewhere, rev, cands = m[lit.name]
         inst = f"{env.name}.{what}:{lit.name}"
@@ -138,15 +139,15 @@ def check_literals(ctx: Ctx, prop_rule: str, env: EnvA, sl, root, lits, what: st
                     extra = " (found only in a non-required position/polarity: " + "; ".join(show_leaf(x) + (" [disjunctive]" if not x.conj else "") + (" [reduced]" if x.reduced else "") for x in elsewhere[:3]) + ")"
                 if rev:
                     extra += " (found with the sides REVERSED: " + "; ".join(show_leaf(x) for x in rev[:2]) + ")"
-                ctx.ob("C01.b", inst, False, sl.where, f"reference literal '{lit.name}' [{describe(lit)}] does not reach the mask{extra}. {lit.why}",
+                ctx.ob(id_presence, inst, False, sl.where, f"reference literal '{lit.name}' [{describe(lit)}] does not reach the mask{extra}. {lit.why}",
                        construct=f"{sl.fi.qualname}:{lit.name}:missing")
                 continue
-            ctx.ob("C01.b", inst, True, sl.where, f"{show_leaf(leaf)}")
+            ctx.ob(id_presence, inst, True, sl.where, f"{show_leaf(leaf)}")
             ctx.sample({"env": env.name, "literal": lit.name, "code": show_leaf(leaf), "conj": leaf.conj})
             if lit.conj_with:
                 other = m[lit.conj_with][3]
                 ok = any(nf.lca_op(c, o) == "and" for c in cands for o in other)
-                ctx.ob("C01.b", inst + ":with:" + lit.conj_with, ok, sl.where,
+                ctx.ob(id_presence, inst + ":with:" + lit.conj_with, ok, sl.where,
                        f"'{lit.name}' must be conjoined with '{lit.conj_with}' (same alternative of the disjunction)",
                        construct=f"{sl.fi.qualname}:{lit.name}:not-conjoined-with:{lit.conj_with}")
         if leaf is None:
@@ -159,7 +160,7 @@ def check_literals(ctx: Ctx, prop_rule: str, env: EnvA, sl, root, lits, what: st
                 if r == direction:
                     worst, why, leaf = r, w, c
                     break
-            rid = "C01.d" if direction == "looser" else "C05.a"
+            rid = id_boundary
             ctx.ob(rid, inst, worst != direction, sl.where,
                    f"{show_leaf(leaf)}  vs reference {describe(lit)}" + (f": {why}. {lit.why}" if worst == direction else ""),
                    construct=f"{sl.fi.qualname}:{lit.name}:{direction}")
